@@ -1,6 +1,6 @@
 """C20 -- templates: each variable uses the per-variable arguments given for that variable id."""
 from ..core import Ctx, Ob, PropSpec
-from ..rules import names, r13
+from ..rules import names, r13, r6e
 
 T = "cirkit.templates."
 
@@ -8,9 +8,11 @@ T = "cirkit.templates."
 def run(ctx: Ctx) -> list[Ob]:
     obs: list[Ob] = []
     obs += r13.r13a(ctx, [T + "pgms.hmm"], require=2)
+    obs += r13.r13c(ctx, T + "pgms.hmm", {"input_layer_kwargs"})
     obs += r13.r13a(ctx, [T + "pgms.fully_factorized"], require=1)
     obs += r13.r13a(ctx, [T + "tensor_factorizations.cp", T + "tensor_factorizations.tucker", T + "tensor_factorizations.tensor_train"], require=4)
     obs += names.name_table(ctx, "name_to_input_layer_factory", require=4)
+    obs += r6e.r10h(ctx, ('cirkit.templates.logic',))
     return obs
 
 
@@ -22,9 +24,9 @@ SPEC = PropSpec(
         "per-variable kwargs, per-mode sizes) that feeds the construction of the layer over Scope([v]) is made at index v (def-use "
         "resolved; -1 == len(T)-1), or element and id are bound by one aligned enumerate -- the 'each variable using the input layer "
         "and per-variable arguments given for that variable id' clause; N1: each input-layer name of name_to_input_layer_factory "
-        "('embedding', 'categorical', 'binomial', 'gaussian') builds the same-named layer class."
+        "('embedding', 'categorical', 'binomial', 'gaussian') builds the same-named layer class. R13c (index-space typing of hmm): `ordering` is a position-indexed table of variable ids, the per-variable arguments and everything mapped from them in order are indexed by variable id, range counters are positions, ordering[..] and loop variables over ordering are variable ids; every subscript read of a typed table uses an index of the table's own space and zip never pairs a variable-indexed table with ordering entry by entry. R10h: LogicalCircuit.smooth / prune change node inputs in place while querying node_scope; no query method of the class memoises its answers in a dict attribute (a stale scope makes smoothing add the same literal twice, and the circuit is no longer decomposable)."
     ),
     not_decided="CP / Tucker / TT contraction formulas, HMM joint probabilities, logic-circuit semantics and model counting (numerical / run-time).",
     run=run,
-    floors={"R13a": 7, "N1": 4},
+    floors={"R10h": 1, "R13c": 2, "R13a": 7, "N1": 4},
 )
